@@ -8,7 +8,7 @@ from __future__ import annotations
 import ast
 from typing import Dict, List, Optional, Tuple
 
-from .model import FuncInfo, Repo, TypeEnv, st_cls, walk_shallow
+from .model import FuncInfo, Repo, TypeEnv, attr_chain, st_cls, walk_shallow
 from .report import RuleRun
 
 
@@ -181,3 +181,74 @@ def shared_parts_rule(repo: Repo, prop: str, rule_id: str, floor: int = 3) -> Ru
 def _nth_key(seen: Dict[str, int], base: str) -> str:
     seen[base] = seen.get(base, 0) + 1
     return base if seen[base] == 1 else f"{base}#{seen[base]}"
+
+
+def coordinate_store_rule(repo: Repo, prop: str, rule_id: str, floor: int = 1) -> RuleRun:
+    """A method that writes coordinates it was handed into a point of its object (``<self...>.position = ...``) must store
+    a private copy: ``np.asarray`` of an ndarray is the caller's array itself. Point.translate / shear change ``position`` in
+    place, so two entities updated from the same array (two operations sharing a mesh vertex, after Mesh.backport) would
+    move together from then on."""
+    from .effects import Effects
+
+    eff = Effects(repo)
+    r = RuleRun(prop, rule_id, floor=floor, what="coordinates handed to a method are stored as private copies (np.array), never as the caller's array (np.asarray), in attributes that are later modified in place")
+    elem = repo.cls("base.element.ElementBase")
+    array_types = ("PointType", "PointListType", "VectorType", "NPPointType", "NPPointListType", "NPVectorType")
+    # attributes modified in place somewhere in the element hierarchy
+    inplace = set()
+    for cls in [elem, *repo.subclasses(elem)]:
+        for m in cls.methods.values():
+            for a in eff.mutated_self_attrs(m):
+                inplace.add(a.split(".", 1)[1])
+    for cls in [elem, *sorted(repo.subclasses(elem), key=lambda c: c.qualname)]:
+        for m in sorted(cls.methods.values(), key=lambda f: f.name):
+            if not m.params or m.is_staticmethod or m.name == "__init__":
+                continue
+            arr = {a.arg for a in m.node.args.args[1:] if a.annotation is not None and any(t in ast.unparse(a.annotation) for t in array_types)}
+            if not arr:
+                continue
+            alias: Dict[str, set] = {p: {p} for p in arr}
+            selfname = m.params[0]
+
+            def bind_target(t, rs):
+                for x in ast.walk(t):
+                    if isinstance(x, ast.Name):
+                        alias.setdefault(x.id, set()).update(rs)
+
+            k = 0
+            for n in ast.walk(m.node):
+                if isinstance(n, (ast.For, ast.comprehension)):
+                    it = n.iter
+                    while isinstance(it, ast.Call) and (attr_chain(it.func) or "") in ("enumerate", "zip", "reversed", "list", "iter") and it.args:
+                        rs = set()
+                        for a in it.args:
+                            rs |= eff.roots(a, alias)
+                        bind_target(n.target, rs)
+                        it = it.args[0]
+                    bind_target(n.target, eff.roots(it, alias))
+            for n in ast.walk(m.node):
+                if not isinstance(n, ast.Assign):
+                    continue
+                for t in n.targets:
+                    if not isinstance(t, ast.Attribute):
+                        continue
+                    base = t
+                    while isinstance(base, (ast.Attribute, ast.Subscript)):
+                        base = base.value
+                    if not (isinstance(base, ast.Name) and base.id == selfname):
+                        continue
+                    if t.attr not in inplace:
+                        continue
+                    rs = eff.roots(n.value, alias) & arr
+                    k += 1
+                    r.check(
+                        not rs,
+                        m,
+                        f"'{ast.unparse(t)[:50]}' receives a private copy",
+                        f"{m.qualname} stores the caller's array ({sorted(rs)[0] if rs else ''}) in '{ast.unparse(t)}' without copying it ('{ast.unparse(n.value)[:60]}'), and "
+                        f"'{t.attr}' is modified in place elsewhere (translate/shear use +=): entities updated from one array - e.g. two operations sharing a vertex after "
+                        "Mesh.backport() - share storage, and moving one moves the other",
+                        n,
+                        key=f"store:{t.attr}#{k}",
+                    )
+    return r
